@@ -23,7 +23,7 @@ LIST_PROPS = {
     'C15': dict(kinds=['raw'], flags=[]),
     # panic injection at every call into user code (Hash, Eq, Clone, Drop, hasher, callback, KeyHasher)
     'C18': dict(kinds=ALL_KINDS, flags=['--faults', '--tok', '--audit', '--quarantine', '--drop', '--no-ro'], no_random_only=True,
-                quick_max_states=40, level='fault_enumeration', no_random=True, fault_big=True),
+                quick_max_states=40, thorough_max_states=250, level='fault_enumeration', no_random=True, fault_big=True),
     # clone in every reachable state, under hashers that change the hash-map iteration order
     'C16': dict(kinds=['raw', 'slru', 'wtlfu'], flags=['--clone', '--no-ro'],
                 variants=[('tracked', 'std'), ('tracked', 'zero'), ('tracked', 'ident')], quick_max_states=1500),
